@@ -600,6 +600,9 @@ theorem invC_step {k : Nat} {s s' : St V} {l : Label V} (ha : InvA k s) (hi : In
   | cCloseStep =>
     rcases step_cCloseStep h with ⟨_, _, rfl⟩ | ⟨_, _, rfl⟩ | ⟨_, _, _, rfl⟩ <;>
       exact ⟨hi.c1, hi.c2, hi.c3, hi.w1, hi.w2, hi.w3, hi.w4, hi.sc, hi.z, hi.f1, hi.f2⟩
+  | ctxEnds =>
+    obtain ⟨_, _, rfl⟩ := step_ctxEnds h
+    exact ⟨hi.c1, hi.c2, hi.c3, hi.w1, hi.w2, hi.w3, hi.w4, hi.sc, hi.z, hi.f1, hi.f2⟩
 
 theorem reach_invC {k : Nat} {s : St V} (h : Reach (init V k) s) : InvC k s := by
   induction h with
